@@ -67,7 +67,10 @@ ENDPOINTS = [dict(), dict(deadend_start=True), dict(allowed_start=[(0, 0), (1, 1
 FILTERS = [[], [dict(name="path_length", args=(3,), kwargs=dict())],
            [dict(name="start_end_distance", args=(), kwargs=dict(min_distance=2))],
            [dict(name="collect_generation_meta", args=(), kwargs=dict(clear_in_mazes=True, inplace=False)),
-            dict(name="cut_percentile_shortest", args=(10.5,), kwargs=dict())]]
+            dict(name="cut_percentile_shortest", args=(10.5,), kwargs=dict())],
+           # arguments that really are lists (custom / user-registered filters): only the top-level args container is a tuple
+           [dict(name="__custom__:keep_cells", args=(), kwargs=dict(cells=[[0, 0], [0, 1]], opts=dict(depth=[1, 2]))),
+            dict(name="drop_indices", args=([0, 2],), kwargs=dict())]]
 SEEDS = [42, 0, 123456789]
 NAMES = ["test", "te st", "a.b_c-d", "x/y:z", "Ünï-cødé1", "0lead", "UPPER lower 99"]
 GRIDS = [1, 2, 3, 5, 10, 49]
